@@ -579,7 +579,16 @@ class ISLaSolver:
             lambda c: self.formula.substitute_expressions({c: self.initial_tree})
         ).value_or(self.formula)
         initial_state = SolutionState(initial_formula, self.initial_tree)
-        initial_states = self.establish_invariant(initial_state)
+        # As for all later states (see `process_new_state`), universal quantifiers that
+        # cannot match anything in (expansions of) the initial tree have to be removed;
+        # otherwise, the state can never leave the queue. This happens, e.g., for a
+        # quantifier over `<start>` when another start symbol was requested.
+        initial_states = [
+            self.remove_infeasible_universal_quantifiers(
+                self.remove_nonmatching_universal_quantifiers(state)
+            )
+            for state in self.establish_invariant(initial_state)
+        ]
 
         self.queue: List[Tuple[float, SolutionState]] = []
         self.tree_hashes_in_queue: Set[int] = {self.initial_tree.structural_hash()}
